@@ -135,8 +135,7 @@ func (p *Program) verifyFunc(name string, view string) *FuncResult {
 				nv := f.specTerm(sc.Expr, env)
 				prev := e.getHeap(r.state, "ghost_"+sc.Ghost, sortS)
 				if sc.Key != nil {
-					oldEnv := &specEnv{f: f, st: f.entry, old: f.entry, results: r.results}
-					nv.T = fmt.Sprintf("(store %s %s %s)", prev, f.specTerm(sc.Key, oldEnv).T, nv.T)
+					nv.T = fmt.Sprintf("(store %s %s %s)", prev, f.specTerm(sc.Key, env).T, nv.T)
 				}
 				val := nv.T
 				if sc.Cond != nil {
